@@ -868,6 +868,11 @@ class Interp:
                 return base[k]
             if is_concrete(idx):
                 raise RaiseSignal("KeyError", e)
+        if isinstance(base, Obj) and isinstance(base.attrs.get("_fields"), tuple) and isinstance(idx, int) and not isinstance(idx, bool):
+            try:
+                return base.attrs[base.attrs["_fields"][idx]]
+            except IndexError:
+                raise RaiseSignal("IndexError", e)
         if isinstance(base, Obj):
             gi = base.cls.lookup("__getitem__")
             if gi is not None:
